@@ -65,7 +65,9 @@ CFG = {
     "C04": dict(files=["Properties/C04.lean"], oracles=("C04",),
                 knobs=[(2, Knobs(envelope="asap", p_dep=0.85, p_gap=0.6, p_onstart=0.25, p_container=0.5, p_prec=0.25, p_pin=0.25, aligned_only=False)),
                        (1, Knobs(envelope="alap", p_dep=0.85, p_gap=0.6, p_container=0.5, p_prec=0.25)),
-                       (1, Knobs(envelope="alap", max_tasks=6, p_twin=0.7, p_container=0.85, p_dep=0.85, p_gap=0.5, dur_weeks=[3, 4]))],
+                       (1, Knobs(envelope="alap", max_tasks=6, p_twin=0.7, p_container=0.85, p_dep=0.85, p_gap=0.5, dur_weeks=[3, 4])),
+                       # three nesting levels, dependencies mostly on the containers: inherited edges of outer containers
+                       (1, Knobs(envelope="asap", max_tasks=7, p_container=0.9, p_inner=0.85, p_dep=0.6, p_gap=0.6, dur_weeks=[3, 4]))],
                 nontrivial=lambda p, r: any(t.get("deps") or t.get("prec") for _, t, _, _ in A.flat_tasks(p)),
                 rule="ASAP and ALAP envelope projects with dense DAGs over nested trees, gaps (incl. days, sub-slot), on-start edges, "
                      "relative/absolute references, precedes, dated containers; oracle: start >= predecessor (start|end) + gap for own, "
@@ -88,9 +90,12 @@ CFG = {
                        (1, Knobs(envelope="alap", p_limits=0.05, p_tasklimits=0.0, p_wh=0.5, p_leave=0.5)),
                        # sparse backward projects with nested containers and equal local ids: wrong deadlines show as idle time
                        (1, Knobs(envelope="alap", max_res=2, max_tasks=6, p_twin=0.7, p_container=0.85, p_dep=0.8, p_gap=0.3,
-                                 p_limits=0.0, p_tasklimits=0.0, big_effort=0.0, dur_weeks=[3, 4]))],
+                                 p_limits=0.0, p_tasklimits=0.0, big_effort=0.0, dur_weeks=[3, 4])),
+                       # contention: holders with holes in their bookings (teams with a member on leave, task limits)
+                       (1, Knobs(envelope="asap", max_res=2, max_tasks=6, p_team=0.45, p_leave=0.6, p_tasklimits=0.35, p_limits=0.0, p_wh=0.3)),
+                       (1, Knobs(envelope="alap", max_res=2, max_tasks=6, p_team=0.45, p_leave=0.6, p_tasklimits=0.35, p_limits=0.0, p_wh=0.3))],
                 nontrivial=any_booking,
-                rule="ASAP and ALAP envelope projects, mostly unlimited resources, calendars with leaves/zones/cross-midnight shifts; oracle: "
+                rule="ASAP and ALAP envelope projects, mostly unlimited resources (one stream with contention against team / limited holders), calendars with leaves/zones/cross-midnight shifts; oracle: "
                      "no working, unbooked slot of the task's resource between bound and end (ASAP) / end and deadline (ALAP)"),
     "C10": dict(files=["Properties/C10.lean"], oracles=("C10",),
                 knobs=[(3, Knobs(p_container=0.8, big_effort=0.3, dur_weeks=[1, 1, 2], p_pin=0.35, p_milestone=0.3)),
@@ -102,8 +107,54 @@ CFG = {
 }
 
 
+def dep_chain_family():
+    """C04: three nesting levels (outer container > inner container > leaf); every subset of the three levels carries a
+    dependency of its own on a different predecessor (efforts 1 d / 2 d / 3 d, so the three bounds differ), with and
+    without gaps and on-start edges, ASAP and ALAP: the leaf must honour the own and ALL inherited edges"""
+    out = []
+    start = 1736121600
+    for mode in ("asap", "alap"):
+        for mask in range(1, 8):
+            for var in range(3):
+                def dep(q, gap=None, onstart=False):
+                    d = {"target": q, "ref": q}
+                    if gap:
+                        d["gap"] = gap
+                    if onstart:
+                        d["onstart"] = True
+                    return d
+                preds = [{"id": n, "effort": [e, "h"], "alloc": ["r0"]} for n, e in (("a", "8"), ("b", "16"), ("c", "24"))]
+                leaf = {"id": "x", "effort": ["4", "h"], "alloc": ["r1"]}
+                inner = {"id": "in", "children": [leaf]}
+                outer = {"id": "o", "children": [inner, {"id": "y", "effort": ["2", "h"], "alloc": ["r1"]}]}
+                if mask & 1:
+                    outer["deps"] = [dep("c", "1d" if var == 1 else None)]
+                if mask & 2:
+                    inner["deps"] = [dep("b", None, var == 2)]
+                if mask & 4:
+                    leaf["deps"] = [dep("a", "2h" if var == 1 else None)]
+                pr = {"start": start, "dur": [4, "w"], "G": 3600, "resources": [{"id": "r0"}, {"id": "r1"}],
+                      "tasks": preds + [outer]}
+                if mode == "alap":
+                    pr["sched"] = "alap"
+                    for t in (outer, inner, leaf):
+                        for d in t.get("deps", []):
+                            d.pop("onstart", None)
+                    # and the mirror image: single tasks that follow the levels of the nest
+                    if var == 2:
+                        for t in (outer, inner, leaf):
+                            t.pop("deps", None)
+                        for bit, (task, tgt) in zip((1, 2, 4), ((preds[2], "o"), (preds[1], "o.in"), (preds[0], "o.in.x"))):
+                            if mask & bit:
+                                task["deps"] = [dep(tgt, "1d" if mask & 1 else None)]
+                        pr["tasks"] = [outer] + preds
+                out.append((f"depchain-{mode}-{mask}-{var}", pr))
+    return out
+
+
 def run(chk):
     c = CFG[chk.prop]
+    extra = dep_chain_family() if chk.prop == "C04" else ()
     return SC.run(chk, chk.prop, sorted(set(c["files"])), c["knobs"], c.get("n_quick", 300), c.get("n_thorough", 6000),
                   c["oracles"], c["nontrivial"], c["rule"], classify=c.get("classify"),
-                  leanchecker_modules=["Properties." + chk.prop, "Proofs.SchedInv"])
+                  leanchecker_modules=["Properties." + chk.prop, "Proofs.SchedInv"], extra_asts=extra)
